@@ -86,11 +86,15 @@ func Yields(n int) {
 // RandSpeed draws a profile.
 func RandSpeed(r *rand.Rand) Speed { return Speed(r.IntN(int(NumSpeeds))) }
 
-// Barrier releases n goroutines at once.
+// Barrier releases n goroutines at once: they park until the last one
+// arrives and then align once more by spinning on a counter (bounded),
+// because goroutines woken by a closed channel start one after the other,
+// microseconds apart.
 type Barrier struct {
-	n    int32
-	cnt  atomic.Int32
-	gate chan struct{}
+	n     int32
+	cnt   atomic.Int32
+	awake atomic.Int32
+	gate  chan struct{}
 }
 
 func NewBarrier(n int) *Barrier { return &Barrier{n: int32(n), gate: make(chan struct{})} }
@@ -99,9 +103,15 @@ func NewBarrier(n int) *Barrier { return &Barrier{n: int32(n), gate: make(chan s
 func (b *Barrier) Wait() {
 	if b.cnt.Add(1) == b.n {
 		close(b.gate)
-		return
+	} else {
+		<-b.gate
 	}
-	<-b.gate
+	b.awake.Add(1)
+	for spins := 0; spins < 4000 && b.awake.Load() < b.n; spins++ {
+		if spins%200 == 199 {
+			runtime.Gosched()
+		}
+	}
 }
 
 // SpinBarrier releases n goroutines within nanoseconds of each other:
